@@ -136,7 +136,7 @@ let run_script (cfgline : string) (lines : string list) =
             | "touch" -> OTouch (n "k", n "h")
             | "contains" -> OContains (n "k")
             | "remove" -> ORemove (n "k", n "h")
-            | "clear" | "dropcache" -> OClear
+            | "clear" | "dropcache" | "dropcache2" -> OClear
             | "resize" -> OResize (n "cap", vs)
             | "evict_all" -> OEvictAll vs
             | "flush" -> OFlush vs
@@ -150,12 +150,23 @@ let run_script (cfgline : string) (lines : string list) =
             | "touch" -> CTouch (n "k", n "h")
             | "contains" -> CContains (n "k")
             | "remove" -> CRemove (n "k", n "h")
-            | "clear" | "dropcache" -> CClear
+            | "clear" | "dropcache" | "dropcache2" -> CClear
             | "resize" -> CResize (n "cap", derived kv)
             | "evict_all" | "flush" -> CEvictAll
             | "clone" -> CClone (n "h", n "h2")
             | "drop" -> CDrop (n "h")
             | _ -> failwith ("op " ^ name) in
+          (* dropcache2: the entry handles outlive the last cache handle - they are dropped first (each with its own
+             effects), then the cache's inner goes and clears what is resident *)
+          if name = "dropcache2" then begin
+            if mode = "generic" then
+              List.iter (fun s ->
+                  List.iter (fun (h, _) ->
+                      match cstep hash cfg !gstate (ODrop h) with Some s' -> gstate := s' | None -> ()) s.handles) before
+            else
+              List.iter (fun (h, _) ->
+                  match cstep1 bucket cfg !cstate (CDrop h) with Some s' -> cstate := s' | None -> ()) (!cstate).gen.handles
+          end;
           let ok =
             if mode = "generic" then
               (match cstep hash cfg !gstate (gop ()) with
@@ -170,7 +181,7 @@ let run_script (cfgline : string) (lines : string list) =
             print_endline (optext ^ " | INADMISSIBLE")
           end else begin
             let after = find_shard_states () in
-            print_endline (optext ^ " | " ^ obs_of before after univ ret (name = "clear" || name = "dropcache"))
+            print_endline (optext ^ " | " ^ obs_of before after univ ret (name = "clear" || name = "dropcache" || name = "dropcache2"))
           end
         end
       end) lines
